@@ -75,6 +75,178 @@ fn reference(s: Strat, p: Pred, req: &Req, inner: &Result<Resp, InnerErr>, value
     }
 }
 
+/// Requests overlap: the backup service of one request is still pending (or its response
+/// future was dropped half-way) while other requests of the same thread go through the layer.
+/// Every order of {start next request, poll, drop (at most one), let the backups finish} up to
+/// depth 7 is run from scratch on three requests; each request must get what the strategy
+/// specifies for *it*, whatever the others are doing.
+fn overlap_run(rep: &mut Report) {
+    use std::future::Future;
+    use std::pin::Pin;
+    use std::task::{Context, Poll, Waker};
+    #[derive(Default)]
+    struct Gate {
+        open: Mutex<bool>,
+        wakers: Mutex<Vec<Waker>>,
+    }
+    struct Wait(Arc<Gate>);
+    impl Future for Wait {
+        type Output = ();
+        fn poll(self: Pin<&mut Self>, cx: &mut Context<'_>) -> Poll<()> {
+            if *self.0.open.lock().unwrap() {
+                Poll::Ready(())
+            } else {
+                self.0.wakers.lock().unwrap().push(cx.waker().clone());
+                Poll::Pending
+            }
+        }
+    }
+    #[derive(Clone, Copy, Debug, PartialEq)]
+    enum Act {
+        Start,
+        Poll(usize),
+        Drop(usize),
+        Open,
+    }
+    type Fut = Pin<Box<dyn Future<Output = Result<Resp, FallbackError<InnerErr>>>>>;
+    let mut runs = 0u64;
+    let mut reported = false;
+    for failing in [false, true] {
+        for script in [[Out::Err(0), Out::Err(0), Out::Err(0)], [Out::Err(0), Out::Ok, Out::Err(0)]] {
+            // DFS over action sequences, each executed from scratch
+            let mut stack: Vec<Vec<Act>> = vec![vec![]];
+            while let Some(hist) = stack.pop() {
+                let w = World::new(0, 10, Mode::Script, 1);
+                {
+                    let mut g = w.inner.lock().unwrap();
+                    for o in &script {
+                        g.script.push_back(Plan::now(*o));
+                    }
+                }
+                let gate = Arc::new(Gate::default());
+                let g2 = gate.clone();
+                let layer = FallbackLayer::<Req, Resp, InnerErr>::builder()
+                    .service(move |r: Req| {
+                        let g = g2.clone();
+                        async move {
+                            Wait(g).await;
+                            if failing {
+                                Err(InnerErr { id: 999_000 + r.id, kind: 0 })
+                            } else {
+                                Ok(Resp { serial: 781_000, req: r.id, key: r.key })
+                            }
+                        }
+                    })
+                    .build();
+                let mut svc = layer.layer(GatedInner::new(w.inner.clone()));
+                let mut clone = svc.clone();
+                let mut futs: Vec<Option<Fut>> = vec![];
+                let mut results: Vec<Option<Result<Resp, FallbackError<InnerErr>>>> = vec![];
+                let mut dropped = vec![];
+                let poll_once = |w: &World, f: &mut Fut| -> Option<Result<Resp, FallbackError<InnerErr>>> {
+                    w.block_on(futures::future::poll_fn(|cx| match f.as_mut().poll(cx) {
+                        Poll::Ready(r) => Poll::Ready(Some(r)),
+                        Poll::Pending => Poll::Ready(None),
+                    }))
+                };
+                let mut apply = |a: Act, futs: &mut Vec<Option<Fut>>, results: &mut Vec<Option<Result<Resp, FallbackError<InnerErr>>>>, dropped: &mut Vec<usize>| match a {
+                    Act::Start => {
+                        let i = futs.len();
+                        let h = if i % 2 == 1 { &mut clone } else { &mut svc };
+                        w.block_on(async {
+                            let _ = futures::future::poll_fn(|cx| Service::<Req>::poll_ready(h, cx)).await;
+                        });
+                        let mut f: Fut = Box::pin(h.call(Req::new(100 + i as u32, 3)));
+                        let r = poll_once(&w, &mut f);
+                        results.push(r);
+                        futs.push(Some(f));
+                    }
+                    Act::Poll(i) => {
+                        if let Some(f) = futs[i].as_mut() {
+                            if results[i].is_none() {
+                                results[i] = poll_once(&w, f);
+                            }
+                        }
+                    }
+                    Act::Drop(i) => {
+                        futs[i] = None;
+                        dropped.push(i);
+                    }
+                    Act::Open => {
+                        *gate.open.lock().unwrap() = true;
+                        for wk in gate.wakers.lock().unwrap().drain(..) {
+                            wk.wake();
+                        }
+                    }
+                };
+                for a in &hist {
+                    apply(*a, &mut futs, &mut results, &mut dropped);
+                }
+                // successors (before the epilogue changes anything)
+                if hist.len() < 7 {
+                    let live: Vec<usize> = (0..futs.len()).filter(|&i| futs[i].is_some() && results[i].is_none()).collect();
+                    if futs.len() < 3 {
+                        stack.push([hist.clone(), vec![Act::Start]].concat());
+                    }
+                    for &i in &live {
+                        stack.push([hist.clone(), vec![Act::Poll(i)]].concat());
+                        if dropped.is_empty() {
+                            stack.push([hist.clone(), vec![Act::Drop(i)]].concat());
+                        }
+                    }
+                    if !*gate.open.lock().unwrap() {
+                        stack.push([hist.clone(), vec![Act::Open]].concat());
+                    }
+                }
+                // epilogue: the backups may finish, every live request is polled to its end
+                apply(Act::Open, &mut futs, &mut results, &mut dropped);
+                for i in 0..futs.len() {
+                    for _ in 0..3 {
+                        apply(Act::Poll(i), &mut futs, &mut results, &mut dropped);
+                    }
+                }
+                runs += 1;
+                for i in 0..futs.len() {
+                    if dropped.contains(&i) {
+                        continue;
+                    }
+                    let id = 100 + i as u32;
+                    let inner_ok = w.inner.lock().unwrap().calls.iter().find(|c| c.req.id == id).and_then(|c| match &c.status {
+                        trv_core::inner::CallStatus::Ok(r) => Some(r.clone()),
+                        _ => None,
+                    });
+                    let want = match inner_ok {
+                        Some(r) => Res::Ok(r),
+                        None if failing => Res::FallbackFailed(InnerErr { id: 999_000 + id, kind: 0 }),
+                        None => Res::Ok(Resp { serial: 781_000, req: id, key: 3 }),
+                    };
+                    let got = match &results[i] {
+                        Some(Ok(r)) => Some(Res::Ok(r.clone())),
+                        Some(Err(FallbackError::Inner(e))) => Some(Res::Inner(e.clone())),
+                        Some(Err(FallbackError::FallbackFailed(e))) => Some(Res::FallbackFailed(e.clone())),
+                        None => None,
+                    };
+                    if got.as_ref() != Some(&want) && !reported {
+                        reported = true;
+                        rep.violations.push(Violation {
+                            property: "C17".into(),
+                            kind: "request_affected_by_another_request".into(),
+                            site: if failing { "ServiceFailing".into() } else { "ServiceOk".into() },
+                            config: format!("overlapping requests, backup service {} inner outcomes {script:?}", if failing { "failing" } else { "ok" }),
+                            history: json!(format!("{hist:?}")),
+                            detail: format!("request {i}: expected {want:?}, got {got:?} (None = never resolves)"),
+                            log: vec![],
+                        });
+                    }
+                }
+            }
+        }
+    }
+    rep.evaluations += runs;
+    rep.witness("overlapping_requests_with_a_pending_backup", runs);
+    rep.extra.insert("overlap_runs".into(), json!({"action_sequences": runs, "depth": 7, "requests": 3}));
+}
+
 fn main() {
     trv_core::startup();
     let cli = trv_core::parse_cli();
@@ -281,6 +453,9 @@ fn main() {
                 }
             }
         }
+    }
+    if cli.replay.is_none() || replaying.as_ref().map_or(false, |v| v["kind"] == "request_affected_by_another_request") {
+        overlap_run(&mut rep);
     }
     for w in ["pass_through_ok", "fallback_value", "pass_through_err", "transformed_err", "fallback_failed"] {
         rep.require_witness(w);
